@@ -256,6 +256,33 @@ Record emod := mkE {
   e_funcs : list N; e_globals : list N; e_mems : list N;   (* fps of the locally defined entities, section order *)
   e_sites : list (N * N) }.                 (* (site number, emitted index) for every site present in the output *)
 
+(* ---------- the import section (since the repair of D02) ----------
+   An import's position in the import section is its index.  Every live slot of the import vector whose kind is
+   function / global / memory is filled with the NEXT import of that kind in the order of the (reorganised) item
+   vector of that kind; slots of the other kinds (tables, tags) and - the fallback - slots of a kind whose items are
+   exhausted keep their own entry.  The result is the list of ImportsIDs in emission order. *)
+(* the import entries carried by the live import items of a vector, in vector order *)
+Definition live_imp_ks (l : list item) : list N :=
+  flat_map (fun i => match it_imp i with Some k => if it_del i then [] else [k] | None => [] end) l.
+Definition imp_queues (lf lg lm : list item) (c : N) : list N :=
+  if N.eqb c 0 then live_imp_ks lf else if N.eqb c 1 then live_imp_ks lg else if N.eqb c 2 then live_imp_ks lm else [].
+Definition q_set (qs : N -> list N) (c : N) (q : list N) : N -> list N := fun c' => if N.eqb c' c then q else qs c'.
+Fixpoint import_order (pos : N) (imps : list imp) (qs : N -> list N) : list N :=
+  match imps with
+  | [] => []
+  | s :: rest =>
+      if i_del s then import_order (pos + 1) rest qs
+      else match qs (i_sp s) with
+           | k :: q' => k :: import_order (pos + 1) rest (q_set qs (i_sp s) q')
+           | [] => pos :: import_order (pos + 1) rest qs
+           end
+  end.
+Definition emitted_imports (imports : list imp) (lf lg lm : list item) : list N :=
+  import_order 0 imports (imp_queues lf lg lm).
+(* imports.get(id): an ImportsID taken from an item is always in range (Proofs/ReidxInv.v, wf_link) *)
+Definition import_at (imports : list imp) (k : N) : N * N :=
+  match nthN imports k with Some im => (i_sp im, i_fp im) | None => (0, 0) end.
+
 Definition emitted_locals (l : list item) (check_deleted : bool) : list N :=
   map it_fp (filter (fun i => is_local i && (if check_deleted then negb (it_del i) else true)) l).
 
@@ -305,7 +332,7 @@ Definition encode (m : mst) (dead_exports : list N) (sites : list rsite) : res e
   | Ok (lf, mf), Ok (lg, mg), Ok (lm, mm) =>
       match emit_sites 0 lf lg dead_exports mf mg mm sites with
       | Ok ss =>
-          Ok (mkE (map (fun i => (i_sp i, i_fp i)) (filter (fun i => negb (i_del i)) (m_imports m)))
+          Ok (mkE (map (import_at (m_imports m)) (emitted_imports (m_imports m) lf lg lm))
                   (emitted_locals lf true) (emitted_locals lg true) (emitted_locals lm false) ss)
       | Panic w => Panic w
       end
